@@ -12,18 +12,21 @@ import (
 	"github.com/getkin/kin-openapi/routers"
 )
 
-//verif:harness id=C14 tier=quick,thorough witness=end,replaced,delivered bounds="validator options: ValidationOptions with IncludeResponseStatus / ExcludeResponseBody / MultiError (each symbolic) x strict or not; operation declaring 200 with a text/plain body of maxLength 1 (symbolic 0..2); handler answers 200 or 404 with a text/plain body of 0-2 bytes: in strict mode the response is replaced by a server error exactly when it is invalid under those options (undeclared status only with IncludeResponseStatus, body too long only without ExcludeResponseBody), otherwise delivered with the handler's status and body"
+//verif:harness id=C14 tier=quick,thorough witness=end,replaced,delivered bounds="validator options: ValidationOptions with IncludeResponseStatus / ExcludeResponseBody / MultiError (each symbolic) x strict or not; operation declaring 200 and 500 with a text/plain body of maxLength symbolic 0..2; handler answers 200, 404 or 500 with a text/plain body of 0-2 bytes: in strict mode the response is replaced by a server error exactly when it is invalid under those options (undeclared status only with IncludeResponseStatus, body too long only without ExcludeResponseBody), otherwise delivered with the handler's status and body"
 func verifH_C14_middleware_options() {
 	d := "d"
 	maxLen := uint64(verifChoose("maxLength", 3))
 	resps := openapi3.NewResponsesWithCapacity(1)
 	resps.Set("200", &openapi3.ResponseRef{Value: &openapi3.Response{Description: &d, Content: openapi3.Content{
 		"text/plain": &openapi3.MediaType{Schema: &openapi3.SchemaRef{Value: &openapi3.Schema{Type: &openapi3.Types{"string"}, MaxLength: &maxLen}}}}}})
+	// a declared server error is a response like any other
+	resps.Set("500", &openapi3.ResponseRef{Value: &openapi3.Response{Description: &d, Content: openapi3.Content{
+		"text/plain": &openapi3.MediaType{Schema: &openapi3.SchemaRef{Value: &openapi3.Schema{Type: &openapi3.Types{"string"}, MaxLength: &maxLen}}}}}})
 	op := &openapi3.Operation{Responses: resps}
 	route := &routers.Route{Spec: &openapi3.T{}, PathItem: &openapi3.PathItem{Get: op}, Operation: op, Method: "GET"}
 	strict := verifChoose("strict", 2) == 1
 	opts := Options{IncludeResponseStatus: verifNondetBool("includeStatus"), ExcludeResponseBody: verifNondetBool("excludeBody"), MultiError: verifNondetBool("multi")}
-	status := []int{200, 404}[verifChoose("status", 2)]
+	status := []int{200, 404, 500}[verifChoose("status", 3)]
 	body := []byte("xx"[:verifChoose("bodyLen", 3)])
 	h := http.HandlerFunc(func(w http.ResponseWriter, r *http.Request) {
 		w.Header().Set("Content-Type", "text/plain")
